@@ -314,13 +314,13 @@ func (pr *ProtoArray) ApplyScoreChanges(deltas []SignedGwei, justifiedEpoch Epoc
 		delta := deltas[i]
 		node := &pr.nodes[i]
 		node.Weight += delta
-		if node.ForkchoiceParent != NONE {
+		if node.ForkchoiceParent != NONE && node.ForkchoiceParent >= pr.indexOffset {
 			deltas[node.ForkchoiceParent-pr.indexOffset] += delta
 		}
 	}
 	for i := len(pr.nodes) - 1; i >= 0; i-- {
 		node := &pr.nodes[i]
-		if node.ForkchoiceParent != NONE {
+		if node.ForkchoiceParent != NONE && node.ForkchoiceParent >= pr.indexOffset {
 			if err := pr.maybeUpdateBestChildAndDescendant(node.ForkchoiceParent, pr.indexOffset+NodeIndex(i)); err != nil {
 				return err
 			}
@@ -333,7 +333,7 @@ func (pr *ProtoArray) ApplyScoreChanges(deltas []SignedGwei, justifiedEpoch Epoc
 func (pr *ProtoArray) updateConnections() error {
 	for i := len(pr.nodes) - 1; i >= 0; i-- {
 		node := &pr.nodes[i]
-		if node.ForkchoiceParent != NONE {
+		if node.ForkchoiceParent != NONE && node.ForkchoiceParent >= pr.indexOffset {
 			if err := pr.maybeUpdateBestChildAndDescendant(node.ForkchoiceParent, pr.indexOffset+NodeIndex(i)); err != nil {
 				return err
 			}
